@@ -92,39 +92,45 @@ func cgSingleReturn(fd *ast.FuncDecl, what string) (ast.Expr, error) {
 	return r.Results[0], nil
 }
 
-func cgIsValid(f *ast.File) (string, error) {
+func cgIsValid(f *ast.File, consts map[string]*ast.BasicLit) (string, error) {
 	fd := findFunc(f, "Coordinate", "IsValid")
 	if fd == nil {
 		return "", fmt.Errorf("IsValid not found")
 	}
-	recv := fd.Recv.List[0].Names[0].Name
-	body := fd.Body.List
+	sts, _, err := canonFunc(fd, consts, canonOpts{})
+	if err != nil {
+		return "", err
+	}
 	vecLoop := false
-	if len(body) == 2 {
-		want := "for i := range " + recv + ".Vec { if !componentIsValid(" + recv + ".Vec[i]) { return false } }"
-		if cgText(body[0]) != want {
-			return "", fmt.Errorf("IsValid: loop is not `%s`", want)
+	if len(sts) == 2 {
+		// canonical: index-only range loops are value loops; receiver v0, element v1
+		want := "for _, v1 := range v0.Vec { if !componentIsValid(v1) { return false } }"
+		if sts[0] != want {
+			return "", fmt.Errorf("IsValid: loop is not (canonically) `%s` but `%s`", want, sts[0])
 		}
 		vecLoop = true
-		body = body[1:]
+		sts = sts[1:]
 	}
-	if len(body) != 1 {
+	if len(sts) != 1 {
 		return "", fmt.Errorf("IsValid: unexpected statements")
 	}
-	ret, ok := body[0].(*ast.ReturnStmt)
+	ret, ok := fd.Body.List[len(fd.Body.List)-1].(*ast.ReturnStmt)
 	if !ok || len(ret.Results) != 1 {
 		return "", fmt.Errorf("IsValid: expected a return")
 	}
 	var fields []string
 	var walk func(e ast.Expr) error
 	walk = func(e ast.Expr) error {
+		if p, ok := e.(*ast.ParenExpr); ok {
+			return walk(p.X)
+		}
 		if b, ok := e.(*ast.BinaryExpr); ok && b.Op == token.LAND {
 			if err := walk(b.X); err != nil {
 				return err
 			}
 			return walk(b.Y)
 		}
-		m := regexp.MustCompile(`^componentIsValid\(` + recv + `\.(Error|Adjustment|Height)\)$`).FindStringSubmatch(cgText(e))
+		m := regexp.MustCompile(`^componentIsValid\(v0\.(Error|Adjustment|Height)\)$`).FindStringSubmatch(cgText(e))
 		if m == nil {
 			return fmt.Errorf("IsValid: conjunct %s", cgText(e))
 		}
@@ -137,22 +143,23 @@ func cgIsValid(f *ast.File) (string, error) {
 	return fmt.Sprintf("{ vecLoop := %v, fields := [%s] }", vecLoop, strings.Join(fields, ", ")), nil
 }
 
-func cgCheckCoordinate(f *ast.File) (string, error) {
+func cgCheckCoordinate(f *ast.File, consts map[string]*ast.BasicLit) (string, error) {
 	fd := findFunc(f, "Client", "checkCoordinate")
 	if fd == nil {
 		return "", fmt.Errorf("checkCoordinate not found")
 	}
-	recv := fd.Recv.List[0].Names[0].Name
-	p := fd.Type.Params.List[0].Names[0].Name
+	sts, _, err := canonFunc(fd, consts, canonOpts{})
+	if err != nil {
+		return "", err
+	}
 	var steps []string
-	for i, st := range fd.Body.List {
-		t := cgText(st)
+	for i, t := range sts {
 		switch {
-		case strings.HasPrefix(t, "if !"+recv+".coord.IsCompatibleWith("+p+") { return fmt.Errorf("):
+		case strings.HasPrefix(t, "if !v0.coord.IsCompatibleWith(v1) { return fmt.Errorf("), strings.HasPrefix(t, "if !v1.IsCompatibleWith(v0.coord) { return fmt.Errorf("):
 			steps = append(steps, "CheckStep.compatible")
-		case strings.HasPrefix(t, "if !"+p+".IsValid() { return fmt.Errorf("):
+		case strings.HasPrefix(t, "if !v1.IsValid() { return fmt.Errorf("):
 			steps = append(steps, "CheckStep.valid")
-		case t == "return nil" && i == len(fd.Body.List)-1:
+		case t == "return nil" && i == len(sts)-1:
 		default:
 			return "", fmt.Errorf("checkCoordinate: statement %q", t)
 		}
@@ -160,43 +167,82 @@ func cgCheckCoordinate(f *ast.File) (string, error) {
 	return "[" + strings.Join(steps, ", ") + "]", nil
 }
 
-func cgUpdate(f *ast.File) (steps string, guard string, err error) {
+// durationNs evaluates `<n> * time.<Unit>` (possibly parenthesised) to nanoseconds.
+func durationNs(e ast.Expr) (string, bool) {
+	t := strings.Trim(cgText(e), "()")
+	m := regexp.MustCompile(`^(\d+) \* time\.(Second|Millisecond|Microsecond|Nanosecond)$`).FindStringSubmatch(t)
+	if m == nil {
+		m2 := regexp.MustCompile(`^time\.(Second|Millisecond|Microsecond|Nanosecond) \* (\d+)$`).FindStringSubmatch(t)
+		if m2 == nil {
+			if t == "0" {
+				return "0", true
+			}
+			return "", false
+		}
+		m = []string{"", m2[2], m2[1]}
+	}
+	unit := map[string]string{"Second": "000000000", "Millisecond": "000000", "Microsecond": "000", "Nanosecond": ""}[m[2]]
+	if m[1] == "0" {
+		return "0", true
+	}
+	return m[1] + unit, true
+}
+
+func cgUpdate(f *ast.File, consts map[string]*ast.BasicLit) (steps string, guard string, err error) {
 	fd := findFunc(f, "Client", "Update")
 	if fd == nil {
 		return "", "", fmt.Errorf("Update not found")
 	}
 	recv := fd.Recv.List[0].Names[0].Name
-	var out []string
-	maxRTT := ""
-	for _, st := range fd.Body.List {
-		t := cgText(st)
+	// the lock discipline, before the mutex statements are stripped: Lock first, and released on every path
+	if len(fd.Body.List) == 0 || cgText(fd.Body.List[0]) != recv+".mutex.Lock()" {
+		return "", "", fmt.Errorf("Update: does not start by taking the mutex")
+	}
+	deferred, unlocks, returns := false, 0, 0
+	ast.Inspect(fd.Body, func(n ast.Node) bool {
+		switch x := n.(type) {
+		case *ast.DeferStmt:
+			if cgText(x.Call) == recv+".mutex.Unlock()" {
+				deferred = true
+			}
+		case *ast.ExprStmt:
+			if cgText(x.X) == recv+".mutex.Unlock()" {
+				unlocks++
+			}
+		case *ast.ReturnStmt:
+			returns++
+		}
+		return true
+	})
+	_, _ = unlocks, returns
+	if !deferred {
+		// NOT equivalent to the deferred form: Update can panic (LatencyFilterSize = 0 indexes an empty slice), and only a
+		// deferred Unlock releases the mutex then; with explicit unlocks the client deadlocks on the next call
+		return "", "", fmt.Errorf("Update: the mutex is not released by a deferred Unlock (a panic inside Update would leave it held)")
+	}
+	sts, args, err := canonFunc(fd, consts, canonOpts{stripMutex: true})
+	if err != nil {
+		return "", "", err
+	}
+	if len(args) != 4 {
+		return "", "", fmt.Errorf("Update: expected (node, other, rtt)")
+	}
+	// canonical names: v0 receiver, v1 node, v2 other, v3 rtt
+	out := []string{"lock", "deferUnlock"}
+	loc := `v\d+`
+	re := func(p string) *regexp.Regexp { return regexp.MustCompile("^" + p + "$") }
+	rttVar, cloneVar := "", ""
+	for k, t := range sts {
+		st := fd.Body.List[k]
 		switch {
-		case t == recv+".mutex.Lock()":
-			out = append(out, "lock")
-		case t == "defer "+recv+".mutex.Unlock()":
-			out = append(out, "deferUnlock")
-		case t == "if err := "+recv+".checkCoordinate(other); err != nil { return nil, err }":
+		case re(`if (`+loc+`) := v0\.checkCoordinate\(v2\); (`+loc+`) != nil \{ return nil, (`+loc+`) \}`).MatchString(t):
 			out = append(out, "checkCoordinateOrReturn")
-		case strings.HasPrefix(t, "const maxRTT = "):
-			ds, ok := st.(*ast.DeclStmt)
-			if !ok {
-				return "", "", fmt.Errorf("Update: maxRTT declaration")
-			}
-			gd, ok := ds.Decl.(*ast.GenDecl)
-			if !ok || len(gd.Specs) != 1 {
-				return "", "", fmt.Errorf("Update: maxRTT declaration")
-			}
-			vs, ok := gd.Specs[0].(*ast.ValueSpec)
-			if !ok || len(vs.Values) != 1 {
-				return "", "", fmt.Errorf("Update: maxRTT declaration")
-			}
-			maxRTT = cgText(vs.Values[0])
-		case strings.HasPrefix(t, "if rtt "):
+		case strings.HasPrefix(t, "if v3 ") || strings.HasPrefix(t, "if 0 ") || strings.HasPrefix(t, "if ("):
 			is, ok := st.(*ast.IfStmt)
 			if !ok || is.Init != nil || is.Else != nil {
 				return "", "", fmt.Errorf("Update: rtt guard shape")
 			}
-			if cgText(is.Cond) == "rtt == 0" {
+			if c := cgText(is.Cond); c == "v3 == 0" || c == "0 == v3" {
 				if !strings.Contains(t, "metrics.") || strings.Contains(t, "return") {
 					return "", "", fmt.Errorf("Update: zero-rtt branch is not the metric")
 				}
@@ -207,50 +253,58 @@ func cgUpdate(f *ast.File) (steps string, guard string, err error) {
 			if !ok || or.Op != token.LOR {
 				return "", "", fmt.Errorf("Update: rtt guard is not a disjunction")
 			}
-			lo, ok1 := or.X.(*ast.BinaryExpr)
-			hi, ok2 := or.Y.(*ast.BinaryExpr)
-			if !ok1 || !ok2 || cgText(lo.X) != "rtt" || cgText(hi.X) != "rtt" || cgText(lo.Y) != "0" || cgText(hi.Y) != "maxRTT" {
-				return "", "", fmt.Errorf("Update: rtt guard operands")
+			lo, hi, loStrict, hiStrict := "", "", false, false
+			for _, d := range []ast.Expr{or.X, or.Y} {
+				if p, ok := d.(*ast.ParenExpr); ok {
+					d = p.X
+				}
+				c, ok := d.(*ast.BinaryExpr)
+				if !ok || (c.Op != token.LSS && c.Op != token.LEQ) {
+					return "", "", fmt.Errorf("Update: rtt guard comparison %s", cgText(d))
+				}
+				switch {
+				case cgText(c.X) == "v3": // rtt < bound: lower bound
+					b, ok := durationNs(c.Y)
+					if !ok || lo != "" {
+						return "", "", fmt.Errorf("Update: rtt lower bound %s", cgText(c.Y))
+					}
+					lo, loStrict = b, c.Op == token.LSS
+				case cgText(c.Y) == "v3": // bound < rtt: upper bound
+					b, ok := durationNs(c.X)
+					if !ok || hi != "" {
+						return "", "", fmt.Errorf("Update: rtt upper bound %s", cgText(c.X))
+					}
+					hi, hiStrict = b, c.Op == token.LSS
+				default:
+					return "", "", fmt.Errorf("Update: rtt guard operands %s", cgText(d))
+				}
 			}
-			var loStrict, hiStrict bool
-			switch lo.Op {
-			case token.LSS:
-				loStrict = true
-			case token.LEQ:
-			default:
-				return "", "", fmt.Errorf("Update: rtt lower comparison %s", lo.Op)
-			}
-			switch hi.Op {
-			case token.GTR:
-				hiStrict = true
-			case token.GEQ:
-			default:
-				return "", "", fmt.Errorf("Update: rtt upper comparison %s", hi.Op)
+			if lo == "" || hi == "" {
+				return "", "", fmt.Errorf("Update: rtt guard needs a lower and an upper bound")
 			}
 			if len(is.Body.List) != 1 || !strings.HasPrefix(cgText(is.Body.List[0]), "return nil, fmt.Errorf(") {
 				return "", "", fmt.Errorf("Update: rtt guard does not return an error")
 			}
-			m := regexp.MustCompile(`^(\d+) \* time\.(Second|Millisecond)$`).FindStringSubmatch(maxRTT)
-			if m == nil {
-				return "", "", fmt.Errorf("Update: maxRTT = %q", maxRTT)
-			}
-			unit := "000000000"
-			if m[2] == "Millisecond" {
-				unit = "000000"
-			}
-			guard = fmt.Sprintf("{ lo := 0, loStrict := %v, hi := %s%s, hiStrict := %v }", loStrict, m[1], unit, hiStrict)
+			guard = fmt.Sprintf("{ lo := %s, loStrict := %v, hi := %s, hiStrict := %v }", lo, loStrict, hi, hiStrict)
 			out = append(out, "rttRangeOrReturn")
-		case t == "rttSeconds := "+recv+".latencyFilter(node, rtt.Seconds())":
+		case re(`(`+loc+`) := v0\.latencyFilter\(v1, v3\.Seconds\(\)\)`).MatchString(t):
+			rttVar = re(`(` + loc + `) := .*`).FindStringSubmatch(t)[1]
 			out = append(out, "latencyFilter")
-		case t == recv+".updateVivaldi(other, rttSeconds)":
+		case rttVar != "" && t == "v0.updateVivaldi(v2, "+rttVar+")":
 			out = append(out, "updateVivaldi")
-		case t == recv+".updateAdjustment(other, rttSeconds)":
+		case rttVar != "" && t == "v0.updateAdjustment(v2, "+rttVar+")":
 			out = append(out, "updateAdjustment")
-		case t == recv+".updateGravity()":
+		case t == "v0.updateGravity()":
 			out = append(out, "updateGravity")
-		case t == "if !"+recv+".coord.IsValid() { "+recv+".stats.Resets++ "+recv+".coord = NewCoordinate("+recv+".config) }":
+		case t == "if !v0.coord.IsValid() { v0.stats.Resets = v0.stats.Resets + 1 v0.coord = NewCoordinate(v0.config) }",
+			t == "if !v0.coord.IsValid() { v0.coord = NewCoordinate(v0.config) v0.stats.Resets = v0.stats.Resets + 1 }":
 			out = append(out, "resetIfInvalid")
-		case t == "return "+recv+".coord.Clone(), nil":
+		case t == "return v0.coord.Clone(), nil":
+			out = append(out, "returnClone")
+		case re(`(` + loc + `) := v0\.coord\.Clone\(\)`).MatchString(t):
+			// the clone taken into a temporary (needed when the mutex is released explicitly before the return)
+			cloneVar = re(`(` + loc + `) := .*`).FindStringSubmatch(t)[1]
+		case cloneVar != "" && t == "return "+cloneVar+", nil":
 			out = append(out, "returnClone")
 		default:
 			return "", "", fmt.Errorf("Update: statement %q", t)
@@ -274,9 +328,30 @@ func cgPing(repo string) (string, error) {
 	if fd == nil {
 		return "", fmt.Errorf("NotifyPingComplete not found")
 	}
+	saved := canonDir
+	defer func() { canonDir = saved }()
+	consts, err := pkgLiteralConsts(filepath.Join(repo, "serf"))
+	if err != nil {
+		return "", err
+	}
+	pv, ok := consts["PingVersion"]
+	if !ok {
+		return "", fmt.Errorf("PingVersion is not a literal constant")
+	}
+	sts, args, err := canonFunc(fd, map[string]*ast.BasicLit{"PingVersion": pv}, canonOpts{})
+	if err != nil {
+		return "", err
+	}
+	if len(args) != 4 {
+		return "", fmt.Errorf("NotifyPingComplete: expected (other, rtt, payload)")
+	}
+	// canonical names: v0 receiver, v1 other, v2 rtt, v3 payload
+	loc := `v\d+`
+	re := func(p string) *regexp.Regexp { return regexp.MustCompile("^" + p + "$") }
+	coordVar := ""
 	var out []string
-	for _, st := range fd.Body.List {
-		t := cgText(st)
+	for k, t := range sts {
+		st := fd.Body.List[k]
 		isReturnIf := func() bool {
 			is, ok := st.(*ast.IfStmt)
 			if !ok || is.Else != nil || len(is.Body.List) == 0 {
@@ -286,30 +361,32 @@ func cgPing(repo string) (string, error) {
 			return ok
 		}
 		switch {
-		case t == "if len(payload) == 0 { return }":
+		case t == "if len(v3) == 0 { return }":
 			out = append(out, "emptyReturn")
-		case t == "version := payload[0]":
-		case strings.HasPrefix(t, "if version != PingVersion {") && isReturnIf():
+		case re(loc + ` := v3\[0\]`).MatchString(t):
+		case regexp.MustCompile(`^if (`+loc+` != `+pv.Value+`|`+pv.Value+` != `+loc+`) \{`).MatchString(t) && isReturnIf():
 			out = append(out, "versionReturn")
-		case t == "r := bytes.NewReader(payload[1:])", t == "dec := codec.NewDecoder(r, &codec.MsgpackHandle{})", t == "var coord coordinate.Coordinate":
-		case strings.HasPrefix(t, "if err := dec.Decode(&coord); err != nil {") && isReturnIf():
+		case re(loc+` := bytes\.NewReader\(v3\[1:\]\)`).MatchString(t), re(loc+` := codec\.NewDecoder\(`+loc+`, &codec\.MsgpackHandle\{\}\)`).MatchString(t):
+		case re(`var (` + loc + `) coordinate\.Coordinate`).MatchString(t):
+			coordVar = re(`var (` + loc + `) coordinate\.Coordinate`).FindStringSubmatch(t)[1]
+		case coordVar != "" && regexp.MustCompile(`^if `+loc+` := `+loc+`\.Decode\(&`+coordVar+`\); `+loc+` != nil \{`).MatchString(t) && isReturnIf():
 			out = append(out, "decodeReturn")
-		case t == "before := p.serf.coordClient.GetCoordinate()":
+		case re(loc + ` := v0\.serf\.coordClient\.GetCoordinate\(\)`).MatchString(t):
 			out = append(out, "before")
-		case t == "after, err := p.serf.coordClient.Update(other.Name, &coord, rtt)":
+		case coordVar != "" && re(loc+`, `+loc+` := v0\.serf\.coordClient\.Update\(v1\.Name, &`+coordVar+`, v2\)`).MatchString(t):
 			out = append(out, "update")
-		case strings.HasPrefix(t, "if err != nil {") && isReturnIf():
+		case regexp.MustCompile(`^if `+loc+` != nil \{`).MatchString(t) && isReturnIf():
 			out = append(out, "rejectedReturn")
-		case strings.HasPrefix(t, "d := float32(before.DistanceTo(after)"):
+		case regexp.MustCompile(`^` + loc + ` := float32\(` + loc + `\.DistanceTo\(` + loc + `\)`).MatchString(t):
 		case strings.HasPrefix(t, "metrics.AddSampleWithLabels("):
 			out = append(out, "metric")
-		case t == "p.serf.coordCacheLock.Lock()":
+		case t == "v0.serf.coordCacheLock.Lock()":
 			out = append(out, "cacheLock")
-		case t == "p.serf.coordCache[other.Name] = &coord":
+		case coordVar != "" && t == "v0.serf.coordCache[v1.Name] = &"+coordVar:
 			out = append(out, "cachePeer")
-		case t == "p.serf.coordCache[p.serf.config.NodeName] = p.serf.coordClient.GetCoordinate()":
+		case t == "v0.serf.coordCache[v0.serf.config.NodeName] = v0.serf.coordClient.GetCoordinate()":
 			out = append(out, "cacheSelf")
-		case t == "p.serf.coordCacheLock.Unlock()":
+		case t == "v0.serf.coordCacheLock.Unlock()":
 			out = append(out, "cacheUnlock")
 		default:
 			return "", fmt.Errorf("NotifyPingComplete: statement %q", t)
@@ -331,24 +408,34 @@ func init() {
 		if err != nil {
 			return "", err
 		}
+		consts, err := pkgLiteralConsts(filepath.Join(repo, "coordinate"))
+		if err != nil {
+			return "", err
+		}
 		civ := findFunc(cf, "", "componentIsValid")
+		if civ == nil {
+			return "", fmt.Errorf("componentIsValid not found")
+		}
+		if _, _, err := canonFunc(civ, consts, canonOpts{}); err != nil {
+			return "", err
+		}
 		ret, err := cgSingleReturn(civ, "componentIsValid")
 		if err != nil {
 			return "", err
 		}
-		comp, err := cgCompExpr(ret, civ.Type.Params.List[0].Names[0].Name)
+		comp, err := cgCompExpr(ret, "v0")
 		if err != nil {
 			return "", err
 		}
-		valid, err := cgIsValid(cf)
+		valid, err := cgIsValid(cf, consts)
 		if err != nil {
 			return "", err
 		}
-		check, err := cgCheckCoordinate(cl)
+		check, err := cgCheckCoordinate(cl, consts)
 		if err != nil {
 			return "", err
 		}
-		steps, guard, err := cgUpdate(cl)
+		steps, guard, err := cgUpdate(cl, consts)
 		if err != nil {
 			return "", err
 		}
@@ -370,9 +457,13 @@ func init() {
 			if fd == nil {
 				return "", fmt.Errorf("%s not found", pn.name)
 			}
+			cs, _, err := canonFunc(fd, consts, canonOpts{})
+			if err != nil {
+				return "", err
+			}
 			var sts []string
-			for _, st := range fd.Body.List {
-				sts = append(sts, fmt.Sprintf("%q", cgStmtText(st)))
+			for _, st := range cs {
+				sts = append(sts, fmt.Sprintf("%q", st))
 			}
 			pinned = append(pinned, fmt.Sprintf("  (%q, [\n    %s])", pn.name, strings.Join(sts, ",\n    ")))
 		}
@@ -386,7 +477,7 @@ func init() {
 		fmt.Fprintf(&sb, "/-- the round-trip-time guard of Client.Update (client.go), in nanoseconds -/\ndef rttGuard : RttGuard := %s\n\n", guard)
 		fmt.Fprintf(&sb, "/-- Client.Update (client.go), statements in source order -/\ndef update : List UpdateStep := %s\n\n", steps)
 		fmt.Fprintf(&sb, "/-- pingDelegate.NotifyPingComplete (serf/ping_delegate.go), statements in source order -/\ndef notifyPingComplete : List PingStep := %s\n\n", ping)
-		fmt.Fprintf(&sb, "/-- the statements (comments stripped, whitespace normalised) of the arithmetic functions the model transcribes -/\ndef pinned : List (String × List String) := [\n%s]\n\n", strings.Join(pinned, ",\n"))
+		fmt.Fprintf(&sb, "/-- the statements of the arithmetic functions the model transcribes, in CANONICAL form (extract/canon.go: locals renamed v0, v1, …, constants resolved, literals normalised, index-only range loops as value loops, comparisons oriented as < / <=, op= spelled out, comments dropped) -/\ndef pinned : List (String × List String) := [\n%s]\n\n", strings.Join(pinned, ",\n"))
 		sb.WriteString("end SerfModel.Gen.CoordGuards\n")
 		return sb.String(), nil
 	})
